@@ -377,8 +377,28 @@ func GetKeyAt(sortedKeys []string, size int64, pos int64, forward bool) string {
 	return sortedKeys[pos]
 }
 
+// checkExpressions rejects a malformed key condition or filter, with the panic interpreterMatch uses,
+// even when no item is going to be tested against it
+func (t *Table) checkExpressions(input QueryInput) {
+	if t.UseNativeInterpreter {
+		return
+	}
+
+	for _, expr := range []string{input.KeyConditionExpression, input.FilterExpression} {
+		if expr == "" {
+			continue
+		}
+
+		if err := t.LangInterpreter.Check(expr); err != nil {
+			panic(err)
+		}
+	}
+}
+
 // SearchData quiery the table based on the input
 func (t *Table) SearchData(input QueryInput) ([]map[string]*types.Item, map[string]*types.Item) {
+	t.checkExpressions(input)
+
 	items := []map[string]*types.Item{}
 	limit := input.Limit
 	exclusiveStartKey := input.ExclusiveStartKey
